@@ -703,12 +703,12 @@ func (exec *Executor) executeNumericItemMethod(
 			ErrVerbose, node,
 		))
 	case int64:
-		num = intCallback(val)
+		num = applyIntCallback(val, intCallback, floatCallback)
 	case float64:
 		num = floatCallback(val)
 	case json.Number:
 		if integer, err := val.Int64(); err == nil {
-			num = intCallback(integer)
+			num = applyIntCallback(integer, intCallback, floatCallback)
 		} else if float, err := val.Float64(); err == nil {
 			num = floatCallback(float)
 		} else {
